@@ -19,7 +19,7 @@ func init() {
 			"commitments Z=1 / rescaled / sign-flipped / mixed, fresh objects / shared pointers / mixed; labels empty/usual/2kB/random bytes; children under NumCPU x GOMAXPROCS with H7 delays permuting worker arrival; each case: CreateMultiProof, CheckMultiProof on a fresh transcript, transcript states compared, commitments still in their class; a seeded sample re-verified by the reference verifier from the serialised bytes; " +
 			"a class is (n relative to W, #distinct indices class, index pattern, representation, pointer pattern, NumCPU, GOMAXPROCS); non-trivial = n >= 2",
 		Technique:        "runtime monitor on prover+verifier of the real code under varied NumCPU/GOMAXPROCS with hook-injected delays and arrival-order recording; independent reference verifier (math/big) on a sample",
-		MinEvals:         map[string]int64{"quick": 600, "thorough": 8000},
+		MinEvals:         map[string]int64{"quick": 600, "thorough": 4000},
 		MinClasses:       map[string]int64{"quick": 300, "thorough": 2000},
 		RequiredCounters: []string{"proofs_verified_by_library", "proofs_verified_by_reference", "hook.multiproof.group.send", "cases_with_two_or_more_distinct_indices", "cases_with_n_not_multiple_of_W"},
 		Assumptions:      []string{"commitments are produced by the library's Commit (its correctness is C05's subject)", "NumCPU above 16 cannot be produced here; the shape classes n<W, n=W, n=kW, n=kW+-1 are all reached with W<=16"},
